@@ -44,12 +44,18 @@ impl AR {
     pub fn predict_one(&self, data: &[f64]) -> f64 {
         let n = data.len();
         let coeff_len = self.coeffs.len();
+        // the model describes deviations from the mean: centre the history, apply the recursion
+        // and add the mean back
+        let tail: Vec<f64> = data[n.saturating_sub(coeff_len)..]
+            .iter()
+            .map(|x| x - self.intercept)
+            .collect();
         if n >= coeff_len {
-            dot(&data[n - coeff_len..], &self.coeffs)
+            dot(&tail, &self.coeffs) + self.intercept
         } else {
             // maybe panic instead? or return NA
             // return std::f64::NAN;
-            dot(data, &self.coeffs[..n])
+            dot(&tail, &self.coeffs[..n]) + self.intercept
         }
     }
 
@@ -62,11 +68,7 @@ impl AR {
         for i in self.coeffs.len()..d.len() {
             d[i] = self.predict_one(&d[..i]);
         }
-        d[d.len() - n..]
-            .to_vec()
-            .iter()
-            .map(|x| x + self.intercept)
-            .collect()
+        d[d.len() - n..].to_vec()
     }
 }
 
